@@ -10,3 +10,4 @@ import VK.Props.C08NeutralDictator
 import VK.Props.C08CandOrderSTV
 import VK.Props.C08CandOrderPairwise
 import VK.Props.C08Rep
+import VK.Props.C08CandOrderTopTwo
